@@ -51,7 +51,10 @@ def _all_field_lists(rec, structs_only=None):
     *harmless* by the documentation (and filtered by default), so its effect is not certain enough for C05."""
     if structs_only is None:
         structs_only = STRUCTS_ONLY
-    out = [rec] if (rec.kind != "union" or not structs_only) else []
+    if rec.kind == "union" and structs_only:
+        # nothing below a union either: a change that leaves the union's size alone is a documented harmless change
+        return []
+    out = [rec]
     for f in rec.fields:
         if isinstance(f.type, Record) and f.type.name is None:
             out.extend(_all_field_lists(f.type, structs_only))
